@@ -4,6 +4,7 @@ C06 helper lemmas, part 7 (interleaving semantics): the shape of a thread step, 
 -/
 import BRV.Proofs.TxMgrHist
 import BRV.Proofs.TxMgrPoll
+import BRV.Proofs.TxMgrDeliver
 
 namespace BRV.TxMgr
 
@@ -23,17 +24,17 @@ inductive TStep (env : Env) (st : Store) : Thread → Store → Thread → Prop
   | send (tx : TxId) (intr : Bool) (st' : Store) : sendSec st tx = some st' →
       TStep env st (.dlvSend tx intr) st' (.dlvDone tx true true)
   | drop (tx : TxId) : TStep env st (.dlvSend tx true) (dropSec st tx) (.dlvDone tx true false)
-  | pollNextNil (node : NodeId) (max : Int) (now : Nat) (acc : List TxId) :
-      TStep env st (.pollNext node max now [] acc) st (.pollDone node acc)
-  | pollNextCons (node : NodeId) (max : Int) (now : Nat) (b : Nat) (bs : List Nat) (acc : List TxId) :
-      TStep env st (.pollNext node max now (b :: bs) acc) st (.pollIn node max now b bs (bucketKeys st b) acc)
-  | pollInNil (node : NodeId) (max : Int) (now : Nat) (b : Nat) (order : List Nat) (acc : List TxId) :
-      TStep env st (.pollIn node max now b order [] acc) st
-        (if max ≤ (acc.length : Int) then .pollDone node acc else .pollNext node max now order acc)
-  | pollInEntry (node : NodeId) (max : Int) (now : Nat) (b : Nat) (order : List Nat) (todo acc : List TxId)
+  | pollNextNil (node : NodeId) (max : Int) (acc : List TxId) :
+      TStep env st (.pollNext node max [] acc) st (.pollDone node acc)
+  | pollNextCons (node : NodeId) (max : Int) (b : Nat) (bs : List Nat) (acc : List TxId) :
+      TStep env st (.pollNext node max (b :: bs) acc) st (.pollIn node max b bs (bucketKeys st b) acc)
+  | pollInNil (node : NodeId) (max : Int) (b : Nat) (order : List Nat) (acc : List TxId) :
+      TStep env st (.pollIn node max b order [] acc) st
+        (if max ≤ (acc.length : Int) then .pollDone node acc else .pollNext node max order acc)
+  | pollInEntry (node : NodeId) (max : Int) (b : Nat) (order : List Nat) (todo acc : List TxId)
       (choice : Nat) (k : TxId) : todo[choice]? = some k →
-      TStep env st (.pollIn node max now b order todo acc) (pollEntrySec env st node k).1
-        (.pollIn node max now b order (todo.eraseIdx choice)
+      TStep env st (.pollIn node max b order todo acc) (pollEntrySec env st node k).1
+        (.pollIn node max b order (todo.eraseIdx choice)
           (if (pollEntrySec env st node k).2 = true then acc ++ [k] else acc))
 
 theorem stepThread_shape {env : Env} {c c' : Config} {i choice : Nat}
@@ -76,23 +77,23 @@ theorem stepThread_shape {env : Env} {c c' : Config} {i choice : Nat}
           exact ⟨_, ht, rfl, .drop tx⟩
         · cases h
     · cases h
-    · rename_i node max now order acc
+    · rename_i node max order acc
       split at h
       · simp only [Option.some.injEq] at h; subst h
-        exact ⟨_, ht, rfl, .pollNextNil node max now acc⟩
+        exact ⟨_, ht, rfl, .pollNextNil node max acc⟩
       · rename_i b bs
         simp only [Option.some.injEq] at h; subst h
-        exact ⟨_, ht, rfl, .pollNextCons node max now b bs acc⟩
-    · rename_i node max now b order todo acc
+        exact ⟨_, ht, rfl, .pollNextCons node max b bs acc⟩
+    · rename_i node max b order todo acc
       split at h
       · simp only [Option.some.injEq] at h; subst h
-        exact ⟨_, ht, rfl, .pollInNil node max now b order acc⟩
+        exact ⟨_, ht, rfl, .pollInNil node max b order acc⟩
       · rename_i x xs
         split at h
         · cases h
         · rename_i k hk
           simp only [Option.some.injEq] at h; subst h
-          exact ⟨_, ht, rfl, .pollInEntry node max now b order (x :: xs) acc choice k hk⟩
+          exact ⟨_, ht, rfl, .pollInEntry node max b order (x :: xs) acc choice k hk⟩
     · cases h
 
 /-! ### received ⇔ an AddTx call passed its lock sections -/
@@ -220,25 +221,25 @@ theorem TStep.facts {env : Env} {st st' : Store} {t t' : Thread} (h : TStep env 
     · intro k hk hn; simp [passedDlv] at hk hn; exact absurd hk hn
     · intro k h1 h2; rw [show recvdB (dropSec st tx) k = recvdB st k from rfl] at h1; rw [h1] at h2; cases h2
     · intro k hk; simp [atEntry] at hk
-  | pollNextNil node max now acc =>
+  | pollNextNil node max acc =>
     refine ⟨fun k hk => hk, fun k hk => hk, ?_, ?_, ?_, ?_⟩
     · intro k hk; simp [passedDlv] at hk
     · intro k hk; simp [passedDlv] at hk
     · intro k h1 h2; rw [h1] at h2; cases h2
     · intro k hk; simp [atEntry] at hk
-  | pollNextCons node max now b bs acc =>
+  | pollNextCons node max b bs acc =>
     refine ⟨fun k hk => hk, fun k hk => hk, ?_, ?_, ?_, ?_⟩
     · intro k hk; simp [passedDlv] at hk
     · intro k hk; simp [passedDlv] at hk
     · intro k h1 h2; rw [h1] at h2; cases h2
     · intro k hk; simp [atEntry] at hk
-  | pollInNil node max now b order acc =>
+  | pollInNil node max b order acc =>
     refine ⟨fun k hk => hk, fun k hk => hk, ?_, ?_, ?_, ?_⟩
     · intro k hk; simp [passedDlv] at hk
     · intro k hk; split at hk <;> simp [passedDlv] at hk
     · intro k h1 h2; rw [h1] at h2; cases h2
     · intro k hk; split at hk <;> simp [atEntry] at hk
-  | pollInEntry node max now b order todo acc choice k' hk' =>
+  | pollInEntry node max b order todo acc choice k' hk' =>
     refine ⟨fun k hk => by rw [pollEntrySec_recvd]; exact hk, ?_, ?_, ?_, ?_, ?_⟩
     · intro k hk
       rcases pollEntrySec_cases env st node k' with ⟨_, heq⟩ | ⟨e, he, _, _, _, heq⟩
@@ -356,6 +357,53 @@ theorem invD_init : InvD {} :=
 theorem InvD.reach {env : Env} {c : Config} (h : Reach env c) : InvD c := by
   induction h with
   | init => exact invD_init
+  | step c c' a _ hs ih => exact ih.step hs
+
+/-! ### every grant's stamp is the clock at the grant, in every interleaving -/
+
+theorem TStep.grantNow {env : Env} {st st' : Store} {t t' : Thread} (h : TStep env st t st' t') : GrantNow st st' := by
+  cases h with
+  | annBucket node tx => exact annBucketSec_grantNow st node tx
+  | annEntry node tx => exact annEntrySec_grantNow env st node tx
+  | dlvBucket node tx now intr =>
+    refine ⟨dlvBucketSec_clock st tx now, Or.inl ?_⟩
+    unfold dlvBucketSec; split <;> rfl
+  | dlvEntry node tx now intr =>
+    refine ⟨dlvEntrySec_clock st tx now, Or.inl ?_⟩
+    unfold dlvEntrySec; split
+    · rfl
+    · split <;> rfl
+  | send tx intr st' hs =>
+    unfold sendSec at hs; split at hs
+    · simp only [Option.some.injEq] at hs; subst hs; exact ⟨rfl, Or.inl rfl⟩
+    · cases hs
+  | drop tx => exact ⟨rfl, Or.inl rfl⟩
+  | pollNextNil node max acc => exact ⟨rfl, Or.inl rfl⟩
+  | pollNextCons node max b bs acc => exact ⟨rfl, Or.inl rfl⟩
+  | pollInNil node max b order acc => exact ⟨rfl, Or.inl rfl⟩
+  | pollInEntry node max b order todo acc choice k hk => exact pollEntrySec_grantNow env st node k
+
+theorem StampEq.step {env : Env} {c c' : Config} {a : Action} (hs : StampEq c.st)
+    (h : step env c a = some c') : StampEq c'.st := by
+  cases a with
+  | tick d => simp only [BRV.TxMgr.step, Option.some.injEq] at h; subst h; exact hs
+  | callAnn node tx => simp only [BRV.TxMgr.step, Option.some.injEq] at h; subst h; exact hs
+  | callDlv node tx intr => simp only [BRV.TxMgr.step, Option.some.injEq] at h; subst h; exact hs
+  | callPoll node max order => simp only [BRV.TxMgr.step, Option.some.injEq] at h; subst h; exact hs
+  | thread i choice =>
+    obtain ⟨t, t', _, _, hts⟩ := stepThread_shape h
+    exact hts.grantNow.stampEq hs
+  | run =>
+    simp only [BRV.TxMgr.step] at h
+    split at h
+    · cases h
+    · rename_i st' hr
+      simp only [Option.some.injEq] at h; subst h
+      intro g; rw [(runSec_ent hr).2.1]; exact hs g
+
+theorem StampEq.reach {env : Env} {c : Config} (h : Reach env c) : StampEq c.st := by
+  induction h with
+  | init => intro g hg; cases hg
   | step c c' a _ hs ih => exact ih.step hs
 
 end BRV.TxMgr
